@@ -263,6 +263,8 @@ def wl_ufunc(ctx, idx, rng):
     ctx.describe_case(desc)
     ctx.sample(desc)
     other_arr = gen.rand_data(rng, x.shape, x.dtype) + (2 if x.dtype.kind != "b" else 0)
+    if x.dtype.kind in "fc" and x.size and gen._side_rng(rng).random() < 0.4:
+        other_arr.flat[0] = 0          # a flagged (zeroed) sample: division by it is a floating-point error event
     if arr == "unary":
         ops = (sig,)
     elif arr == "sig_sig":
@@ -298,6 +300,34 @@ def wl_ufunc(ctx, idx, rng):
     outform = "none"
     r = rng.random()
     raw = tuple(unwrap(v) for v in ops)
+    # the caller's floating-point error handling (np.errstate / np.seterr) applies to signals as it does to their data
+    strict = (not use_dask) and x.dtype.kind in "fc" and gen._side_rng(rng).random() < 0.25
+    if strict:
+        with probes.quiet():
+            try:
+                with np.errstate(all="raise"), warnings.catch_warnings():
+                    warnings.simplefilter("ignore")
+                    uf(*raw)
+                raw_raises = False
+            except FloatingPointError:
+                raw_raises = True
+            except Exception:
+                raw_raises = None
+        if raw_raises:
+            ctx.count("oracle[errstate_respected]")
+            try:
+                with np.errstate(all="raise"), warnings.catch_warnings():
+                    warnings.simplefilter("ignore")
+                    uf(*ops)
+                got_exc = None
+            except Exception as e_:
+                got_exc = e_
+            if not isinstance(got_exc, FloatingPointError):
+                ctx.violation("ufunc", f"under np.errstate(all='raise') np.{uf.__name__} raises FloatingPointError on the underlying arrays but "
+                                       f"{'returned a result' if got_exc is None else 'raised ' + type(got_exc).__name__} on signals", None,
+                              {"what": "errstate_ignored", "ufunc": uf.__name__})
+            ctx.bucket(uf.__name__, arr, clsname, "np", "errstate_raise")
+            return
     try:
         with warnings.catch_warnings():
             warnings.simplefilter("ignore")
